@@ -147,6 +147,10 @@ def run(ctx, rep):
     c03.rule_gate_def(ctx, rep)  # exactly-one-winner under races rests on the Acquire gate (and on C02)
 
     def family(F):
+        # (every function that hands out a UniqueArc: `into_inner` trusts the type, whoever built the value)
+        for b in F.body_list:
+            if b["kind"] in ("Fn", "AssocFn") and "output" in b and F.mentions_adt(b["output"], F.handle_paths.get("UniqueArc", "-")):
+                yield b["key"]
         for h, name, tr in (("Arc", "try_unique", None), ("Arc", "try_unwrap", None), ("Arc", "unwrap_or_clone", None), ("UniqueArc", "try_from", "TryFrom"), ("UniqueArc", "into_inner", None), ("UniqueArc", "from_arc", None), ("UniqueArc", "from_arc_ref", None)):
             for b in F.method(h, name, tr):
                 yield b["key"]
